@@ -128,7 +128,8 @@ structure Local where
   fc : Option Lim := none
   deriving DecidableEq, Repr, Inhabited
 
-/-- `localWrapper.Sync`: the new wrapper and whether `stopRemoteWrapper()` was called -/
+/-- `localWrapper.Sync`: the new wrapper and whether `stopRemoteWrapper()` was called (always on a type change: a
+    remote limiter of the old type bounds nothing the new schema configures) -/
 def localSync (l : Local) (s : Schema) : Except String (Local × Bool) :=
   if s = l.config then .ok (l, false)
   else
@@ -136,11 +137,11 @@ def localSync (l : Local) (s : Schema) : Except String (Local × Bool) :=
     match l.fc with
     | none => do
         let fc ← newLim s
-        pure ({ config := s, fc := some fc }, false)
+        pure ({ config := s, fc := some fc }, true)
     | some fc =>
       if fc.kind ≠ newType then do
         let fc' ← newLim s
-        pure ({ config := s, fc := some fc' }, false)
+        pure ({ config := s, fc := some fc' }, true)
       else
         match newType with
         | .mi =>
@@ -266,12 +267,12 @@ def MIW.setLimit (w : MIW) (loc : Schema) (obs : Int) (r : Reply) : Except Strin
   | .tooOld => .ok w
   | .other =>
     if !w.unavail then
-      match loc.mi with
-      | none => .error "panic:nil-deref localConfig.MaxRequestsInflight"
-      | some localMax =>
-        let inflight := if obs < localMax then localMax else obs
-        let inflight := if inflight > w.max then w.max else inflight
-        .ok { w with inner := (w.inner.resize (toU32 inflight) 0).1, unavail := true }
+      -- no local limit of this type (the schema's type changed under the wrapper): nothing to raise the fallback to
+      let inflight := match loc.mi with
+        | none => obs
+        | some localMax => if obs < localMax then localMax else obs
+      let inflight := if inflight > w.max then w.max else inflight
+      .ok { w with inner := (w.inner.resize (toU32 inflight) 0).1, unavail := true }
     else .ok w
   | .none =>
     if r.accept then
@@ -341,8 +342,9 @@ def TBW.setLimit (w : TBW) (loc : Schema) (m : Meter) (r : Reply) : Except Strin
   | .tooOld => .ok (w, w.expectMore)
   | .other =>
     if !w.unavail then
+      -- no local bucket (the schema's type changed under the wrapper): `meter.Rate() ≥ 0` is the fallback as it is
       match loc.tb with
-      | none => .error "panic:nil-deref localConfig.TokenBucket"
+      | none => .ok (w.degrade 0 m, (w.degrade 0 m).expectMore)
       | some lt => .ok (w.degrade lt.qps m, (w.degrade lt.qps m).expectMore)
     else .ok (w, w.expectMore)
   | .none =>
@@ -609,8 +611,13 @@ def isReady (st : State) : Bool :=
     | none => false
     | some h => h.ready
 
-/-- `EnableRemoteFlowControl` makes a new `remoteWrapper`; `newFlowControl` a new limiter inside it with an EMPTY
-    max-in-flight bucket (the requests in flight are forgotten); `Resize` keeps the bucket and its count -/
+/-- does `newFlowControl` build a NEW limiter object (an empty max-in-flight bucket)? only when there is none yet or its
+    type differs; otherwise the limiter in force — and the requests it counts — is kept, resized and wrapped anew -/
+def remoteNewBucket (r : Remote) (loc : Schema) (i : Item) : Bool :=
+  remoteRecreates r loc i && (match r.fc with | none => true | some g => decide (g.inner.kind ≠ itemType i))
+
+/-- `EnableRemoteFlowControl` makes a new `remoteWrapper`; a NEW limiter object inside it has an EMPTY max-in-flight
+    bucket; `Resize`, and a rebuild that keeps the limiter (`remoteNewBucket = false`), keep the bucket and its count -/
 def flightAfterSync (f : Flight) (enabled recreated : Bool) : Flight :=
   let f := if enabled then { f with remOuter := f.remOuter + 1 } else f
   if recreated then { f with remInner := f.remInner + 1, remCount := 0 } else f
@@ -620,7 +627,7 @@ def cacheRemoteSync (c : Cache) (i : Item) (nowS : Int) : Except String Cache :=
   let r' ← remoteSync (c.remote.getD {}) c.loc.config i
   pure { c with remote := some r',
                 cnt := if remoteRecreates (c.remote.getD {}) c.loc.config i then { event := false, lastSync := nowS } else c.cnt,
-                fl := flightAfterSync c.fl c.remote.isNone (remoteRecreates (c.remote.getD {}) c.loc.config i) }
+                fl := flightAfterSync c.fl c.remote.isNone (remoteNewBucket (c.remote.getD {}) c.loc.config i) }
 
 /-- unix seconds of a time in ns (`time.Now().Unix()`) -/
 def unixS (now : Int) : Int := now / 1000000000
